@@ -33,6 +33,28 @@ def gen(seed):
             d = rng.choice(disc)
             spec['plan'].insert(0, C.fault_entry(d, rng.choice(C.test_phases(d)),
                                                  {'a': 'wrap_stdout'}))
+    if spec['opt'].get('buffer') and not spec['opt'].get('j') and rng.random() < 0.2:
+        # with --buffer: a test that leaves sys.stdout/sys.stderr pointing at a stream of its
+        # own - between tests and after the run the original objects must be back all the same
+        from .. import common as C
+        disc = [d for d in W.Model(spec['world']).discover()
+                if C.test_phases(d) and not d['t'].get('doctest')]
+        if disc:
+            d = rng.choice(disc)
+            phases = C.test_phases(d)
+            late = [ph for ph in phases if ph in ('tearDown', 'cleanup')]
+            if late and rng.random() < 0.5:
+                # the tidy variant: save early, put back in tearDown / a cleanup
+                early = [ph for ph in phases if ph not in ('tearDown', 'cleanup')]
+                spec['plan'].append(C.fault_entry(d, rng.choice(early),
+                                                  {'a': 'swap_stdout', 'step': 'save'}))
+                spec['plan'].append(C.fault_entry(d, rng.choice(late),
+                                                  {'a': 'swap_stdout', 'step': 'restore'}))
+            else:
+                spec['plan'].append(C.fault_entry(d, rng.choice(phases),
+                                                  {'a': 'replace_stdout',
+                                                   'which': rng.choice(['stdout', 'stderr'])}))
+            spec['plan'] = _ws.order_plan(spec['plan'])
     return spec
 
 
